@@ -101,6 +101,35 @@ def gen_chains():
                         yield dict(kind=kind, L=L, ops=ops, stream="chains", scope="in")
 
 
+def gen_lollipops():
+    """diamonds with one long and one short side joined before a tail, and wide stars: the depth bound counts LEVELS of
+    the breadth-first walk, so a role reached first at the end of the long side must still be found through the short
+    side, and many roles on one level cost one level only (both insertion orders, every tail node queried)"""
+    for kind in ("plain", "cond", "domain"):
+        dom = ("d1",) if kind == "domain" else ()
+        for long_ in (5, 7, 8, 9):
+            for short in (1, 2, 3):
+                for tail in (1, 3, 5, 8):
+                    ls = [f"l{i}" for i in range(long_)]
+                    ss = [f"s{i}" for i in range(short)]
+                    ts = [f"t{i}" for i in range(tail)]
+                    e_long = [("u", ls[0])] + [(ls[i], ls[i + 1]) for i in range(long_ - 1)] + [(ls[-1], "j")]
+                    e_short = [("u", ss[0])] + [(ss[i], ss[i + 1]) for i in range(short - 1)] + [(ss[-1], "j")]
+                    e_tail = [("j", ts[0])] + [(ts[i], ts[i + 1]) for i in range(tail - 1)]
+                    for edges in (e_long + e_short + e_tail, e_short + e_long + e_tail, e_tail + e_long + e_short):
+                        ops = [["add", a, b, *dom] for a, b in edges]
+                        ops += [["has", "u", t, *dom] for t in ["j"] + ts] + [["has", ls[0], ts[-1], *dom], ["roles", "u", *dom]]
+                        yield dict(kind=kind, L=10, ops=ops, stream="lollipops", scope="in")
+        for width in (9, 10, 11, 14, 25):
+            roles = [f"r{i}" for i in range(width)]
+            for mid in (False, True):
+                edges = ([("u", "m")] + [("m", r) for r in roles]) if mid else [("u", r) for r in roles]
+                edges += [(roles[-1], "top"), (roles[0], "top0")]
+                ops = [["add", a, b, *dom] for a, b in edges]
+                ops += [["has", "u", r, *dom] for r in roles[-3:] + ["top", "top0", roles[0]]] + [["users", "top", *dom]]
+                yield dict(kind=kind, L=10, ops=ops, stream="lollipops", scope="in")
+
+
 def gen_conditions():
     """a diamond a -> b -> d, a -> c -> d (+ a direct chord) with every truth assignment to <= 4 link conditions"""
     edges = [("a", "b"), ("b", "d"), ("a", "c"), ("c", "d")]
@@ -356,7 +385,7 @@ def run(ctx):
         if stage == "quick":
             hs += list(gen_digraphs(N3, PAIRS3, rm_corr.KINDS))
             hs += list(gen_small_histories(4 if False else 3))
-            hs += list(gen_chains()) + list(gen_conditions()) + list(gen_glue())
+            hs += list(gen_chains()) + list(gen_lollipops()) + list(gen_conditions()) + list(gen_glue())
             hs += list(gen_small_histories_len4())
             hs += list(gen_random(rng, 4000, 14))
             nenf = 300
@@ -374,7 +403,7 @@ def run(ctx):
             hs += list(gen_digraphs(N3, PAIRS3, rm_corr.KINDS))
             hs += list(gen_digraphs(n4, p4, ("plain",)))
             hs += list(gen_small_histories(3)) + list(gen_small_histories_len4())
-            hs += list(gen_chains()) + list(gen_conditions()) + list(gen_glue())
+            hs += list(gen_chains()) + list(gen_lollipops()) + list(gen_conditions()) + list(gen_glue())
             hs += list(gen_random(rng, 60000, 30))
             nenf = 3000
             res.rule = (
